@@ -1064,3 +1064,110 @@ Proof.
     + rewrite Hc. reflexivity.
     + intros k Hk. rewrite (Hs k Hk). unfold abf_set_grids. cbn [s_sum]. rewrite vget_vbuild by exact Hk. reflexivity.
 Qed.
+
+(* ---------------------------------------------------------------- timeStepFactor (same-step total forces) *)
+
+Definition attributed_mts_of (c : @abf_cfg R) (k : Z) (ds : list (@delivery R)) : list (idx * @vec R) :=
+  map (fun d => (fst (fst d), snd (fst d)))
+      (filter (fun d => awake k (snd d) && eligible c (snd d) && index_ok c (fst (fst d))) ds).
+
+Lemma attributed_mts_of_app c k d1 d2 :
+  attributed_mts_of c k (d1 ++ d2) = attributed_mts_of c k d1 ++ attributed_mts_of c k d2.
+Proof. unfold attributed_mts_of. rewrite filter_app, map_app. reflexivity. Qed.
+
+Lemma sample_force_same c i o o' : c_same_step c = true ->
+  sample_force Rops c (i, o) = sample_force Rops c (i, o').
+Proof.
+  intros Hsame. unfold sample_force. apply map_ext. intros k. unfold measured, own, jac. rewrite Hsame. reflexivity.
+Qed.
+
+Lemma mstep_same c k s i b :
+  c_same_step c = true ->
+  let so := abf_mstep Rops c k s i in
+  let A := attributed_mts_of c k [(bins Rops c (i_x i), sample_force Rops c (i, snd so), (o_rel (snd so), o_cont (snd so)))] in
+  s_cnt (fst so) b = (s_cnt s b + cnt_of b A)%Z /\
+  forall d, (d < c_nd c)%nat -> vget Rops (s_sum (fst so) b) d = vget Rops (s_sum s b) d - fsum_of d b A.
+Proof.
+  intros Hsame. cbn zeta. unfold abf_mstep. destruct (awake k (st_clk s i)) eqn:Haw.
+  - cbn [fst snd]. pose proof (step_same c s i b Hsame) as H. cbn zeta in H.
+    rewrite (sample_force_same c i (mts_out Rops c k i (snd (abf_step Rops c s i))) (snd (abf_step Rops c s i)) Hsame).
+    unfold attributed_mts_of. unfold attributed_of in H. cbn [filter map fst snd] in *.
+    assert (Hclk : (o_rel (mts_out Rops c k i (snd (abf_step Rops c s i))), o_cont (mts_out Rops c k i (snd (abf_step Rops c s i))))
+                   = st_clk s i).
+    { unfold mts_out, abf_step. cbn [snd o_rel o_cont]. symmetry. apply surjective_pairing. }
+    assert (Hclk2 : (o_rel (snd (abf_step Rops c s i)), o_cont (snd (abf_step Rops c s i))) = st_clk s i).
+    { unfold abf_step. cbn [snd o_rel o_cont]. symmetry. apply surjective_pairing. }
+    rewrite Hclk, Haw. rewrite Hclk2 in H. cbn [andb]. exact H.
+  - unfold abf_sleep. cbn [fst snd s_cnt s_sum o_rel o_cont]. unfold attributed_mts_of. cbn [filter map fst snd].
+    rewrite <- surjective_pairing. rewrite Haw. cbn [andb map]. unfold cnt_of, fsum_of. cbn.
+    split; [lia | intros d Hd; lra].
+Qed.
+
+Lemma run_mts c k : c_same_step c = true ->
+  forall h s b,
+    let r := abf_mrun_from Rops c k s h in
+    let A := attributed_mts_of c k (deliveries_same Rops c (combine h (snd r))) in
+    s_cnt (fst r) b = (s_cnt s b + cnt_of b A)%Z /\
+    forall d, (d < c_nd c)%nat -> vget Rops (s_sum (fst r) b) d = vget Rops (s_sum s b) d - fsum_of d b A.
+Proof.
+  intros Hsame h. induction h as [|i h IH]; intros s b; cbn zeta.
+  - cbn [abf_mrun_from fst snd combine deliveries_same map]. unfold attributed_mts_of, cnt_of, fsum_of. cbn.
+    split; [lia | intros d Hd; lra].
+  - cbn [abf_mrun_from fst snd combine deliveries_same map].
+    specialize (IH (fst (abf_mstep Rops c k s i)) b). cbn zeta in IH. destruct IH as [IHc IHs].
+    pose proof (mstep_same c k s i b Hsame) as Hstep. cbn zeta in Hstep. destruct Hstep as [Sc Ss].
+    change (?x :: map ?f ?l) with ([x] ++ map f l).
+    rewrite attributed_mts_of_app, cnt_of_app. split.
+    + unfold deliveries_same in IHc. rewrite IHc, Sc. lia.
+    + intros d Hd. rewrite fsum_of_app. unfold deliveries_same in IHs. rewrite (IHs d Hd), (Ss d Hd). lra.
+Qed.
+
+(* T1 with timeStepFactor k (same-step total forces): count and sum of every bin are those of the samples of the
+   steps at which the bias is awake *)
+Theorem mts_state_is_sample_sum c k h b :
+  c_same_step c = true ->
+  let r := abf_mrun_from Rops c k (abf_init Rops c) h in
+  let S := attributed_mts Rops c k (combine h (snd r)) in
+  s_cnt (fst r) b = cnt_of b S /\
+  forall d, (d < c_nd c)%nat -> vget Rops (s_sum (fst r) b) d = - fsum_of d b S.
+Proof.
+  intros Hsame. cbn zeta. pose proof (run_mts c k Hsame h (abf_init Rops c) b) as H. cbn zeta in H.
+  destruct H as [Hc Hs]. unfold attributed_mts. fold (attributed_mts_of c k (deliveries_same Rops c (combine h (snd (abf_mrun_from Rops c k (abf_init Rops c) h))))).
+  split.
+  - rewrite Hc. unfold abf_init. cbn [s_cnt]. lia.
+  - intros d Hd. rewrite (Hs d Hd). unfold abf_init. cbn [s_sum]. rewrite vget_vzero. lra.
+Qed.
+
+(* T2 with timeStepFactor: at an awake step the ABF force is spec_force of the grids and the variable receives
+   k times it (times the scaling factor); at a step at which the bias is asleep nothing is applied *)
+Theorem mts_force c k s i d :
+  (forall b, 0 <= s_cnt s b)%Z -> (d < c_nd c)%nat -> (0 <= c_min c < c_full c)%Z ->
+  (c_cap c = true -> 0 <= vget Rops (c_maxf c) d) ->
+  let so := abf_mstep Rops c k s i in
+  (awake k (st_clk s i) = true ->
+     vget Rops (o_fabf (snd so)) d
+       = spec_force c (i_apply i) (s_cnt (fst so)) (s_sum (fst so)) (bins Rops c (i_x i)) d /\
+     vget Rops (o_fapp (snd so)) d = IZR k * vget Rops (o_fabf (snd so)) d * sfac Rops c (bins Rops c (i_x i))) /\
+  (awake k (st_clk s i) = false ->
+     vget Rops (o_f (snd so)) d = 0 /\ vget Rops (o_fapp (snd so)) d = 0 /\
+     s_cnt (fst so) = s_cnt s /\ s_sum (fst so) = s_sum s).
+Proof.
+  intros Hcnt Hd Hmf Hcap. cbn zeta. unfold abf_mstep. split; intros Haw; rewrite Haw.
+  - cbn [fst snd]. split.
+    + unfold mts_out. cbn [o_fabf]. unfold abf_step. cbn [fst snd o_fabf s_cnt s_sum].
+      unfold st_fabf, st_bin. apply applied_force_spec; try assumption. apply cnt_nonneg_step. exact Hcnt.
+    + unfold mts_out. cbn [o_fapp o_fabf]. rewrite vget_vbuild by exact Hd. cbn [nmul nofZ Rops]. reflexivity.
+  - unfold abf_sleep. cbn [fst snd o_f o_fapp s_cnt s_sum]. rewrite vget_vzero. repeat split; reflexivity.
+Qed.
+
+Lemma cnt_nonneg_mstep c k s i : (forall b, 0 <= s_cnt s b)%Z -> forall b, (0 <= s_cnt (fst (abf_mstep Rops c k s i)) b)%Z.
+Proof.
+  intros H b. unfold abf_mstep. destruct (awake k (st_clk s i)); cbn [fst].
+  - unfold abf_step. cbn [fst s_cnt]. apply cnt_nonneg_step. exact H.
+  - unfold abf_sleep. cbn [fst s_cnt]. apply H.
+Qed.
+
+(* the bias is awake at step 0 and at every k-th step; with k <= 1 at every step *)
+Lemma awake_examples : awake 2 (0%Z, false) = true /\ awake 2 (1%Z, false) = false /\ awake 3 (6%Z, true) = true /\
+                       awake 1 (5%Z, false) = true.
+Proof. repeat split; reflexivity. Qed.
